@@ -430,9 +430,11 @@ func (p *Program) buildCanon() (*Canon, error) {
 		for i := 0; i < st.NumFields(); i++ {
 			have[st.Field(i).Name()] = true
 		}
+		// a field is API only when both it and its struct type are exported
+		apiField := func(name string) bool { return exported(name) && exported(tn.Name()) }
 		var missing []baseField
 		for _, bf := range bt.Fields {
-			if !have[bf.Name] && !exported(bf.Name) {
+			if !have[bf.Name] && !apiField(bf.Name) {
 				missing = append(missing, bf)
 			}
 		}
@@ -443,7 +445,7 @@ func (p *Program) buildCanon() (*Canon, error) {
 		used := map[int]bool{}
 		for i := 0; i < st.NumFields(); i++ {
 			f := st.Field(i)
-			if baseHas[f.Name()] || exported(f.Name()) {
+			if baseHas[f.Name()] || apiField(f.Name()) {
 				continue
 			}
 			ft := c.tstr(f.Type())
